@@ -31,7 +31,7 @@ def work(task):
   plans = set()
   for i in range(shard, len(cs), nsh):
     c = cs[i]
-    h.run_case(c, None)
+    h.run_case(c, None, prepared_rules=getattr(c, 'prepared', None))
     out = impl.compile_pred(c.text(), 'T')
     if out[0] == 'script':
       plans.add((c.info['shape'], hashlib.sha1((out[1] + '\n'.join(out[2]) + out[3]).encode()).hexdigest()[:12]))
@@ -53,7 +53,7 @@ def replay(ctx, case):
   c = pickle.loads(base64.b64decode(case['pickle']))
   h = semcheck.Harness()
   if 'db' in case: c.dbs = [case['db']]; c.fact_dbs = []
-  h.run_case(c, None)
+  h.run_case(c, None, prepared_rules=getattr(c, 'prepared', None))
   r = h.result(); h.close()
   return r['viol']
 
